@@ -599,7 +599,7 @@ def c10_layer(env):
         for k in ("fwd_vs_zoneinfo", "fwd_vs_glibc_posix", "fwd_vs_glibc_right", "find_vs_zoneinfo", "find_vs_glibc", "mktime_membership", "str_vs_glibc", "skipped_out_of_python_range", "skipped_glibc_range"):
             classes["compared/" + k] = ref.get(k, 0)
         doc["classes"] = classes
-        need = ["posix_vs_zoneinfo", "posix_vs_glibc", "right_vs_glibc", "footer_governed_future", "fold", "gap", "negative_dst_zone", "file_version_3", "compared/str_vs_glibc", "compared/find_vs_glibc"]
+        need = ["posix_vs_zoneinfo", "posix_vs_glibc", "right_vs_glibc", "footer_governed_future", "fold", "gap", "negative_dst_zone", "file_version_3", "compared/str_vs_glibc", "compared/find_vs_glibc", "find_event_in_rule_governed_future"]
         missing = [k for k in need if not classes.get(k)]
         if missing:
             doc.setdefault("inconclusive", []).append("required coverage classes with zero observations: %s" % ",".join(missing))
